@@ -20,7 +20,7 @@ from . import wire
 PROPERTY_ID = 'C05'
 LEVEL = 'proof'
 BOUNDS = {'attacker input': 'arbitrary bytes, symbolic length up to 2^32', 'genuine stream': 'K chunks per direction (quick 2, thorough 3) of arbitrary content, each 1..65535 bytes',
-          'decoder calls': 'one call on the whole attacker stream from the connection\'s initial state (segmentation independence is C04); loop unrolled to 2K+3 iterations, reaching the bound is inconclusive'}
+          'aead-cipher server': 'AEAD-cipher server decoder: 2 genuine chunks, one segment (the address parse of an attacker-chosen first chunk is expensive)', 'decoder calls': 'one call on the whole attacker stream from the connection\'s initial state (segmentation independence is C04); loop unrolled to 2K+3 iterations, reaching the bound is inconclusive'}
 TRUSTED_BASE = ['rustc MIR printer', 'vf.engine', 'vf.ideal (INT-CTXT idealisation of the AEAD: a ciphertext opens only if the same key, nonce, length and tag were sealed)',
                 'idealised key derivation (injective pairing of inputs)', 'z3']
 ASSUMPTIONS = ['AEAD ciphers are INT-CTXT secure and key derivations collision free (ideal model); tokio-util FramedRead stops at the first Err (its documented has_errored behaviour)',
@@ -262,7 +262,7 @@ def make_ss_tcp_job(N, kind, mode, tier, nseg=1):
     def job(ctx):
         from . import decoders
         # legacy: three chunks also in the quick tier (a skipped middle chunk needs one before and one after it)
-        K = (3 if (mode == 'Client' or tier == 'thorough') else 2) if legacy else K_of(tier) - 1
+        K = (3 if mode == 'Client' else 2) if legacy else K_of(tier) - 1
         case = decoders.ss_tcp_cases(ctx.prog, [(N, kind, mode, False, False)])[0]
         ex = base_exec(ctx, N, 2 * K + 4)
         case.setup(ex)
@@ -331,8 +331,8 @@ def jobs(prog, tier):
     for (N, kind) in ((16, 'Aes128Gcm'), (32, 'ChaCha20Poly1305'), (16, 'Aead2022Blake3Aes128Gcm'), (32, 'Aead2022Blake3Aes256Gcm'), (32, 'Aead2022Blake3ChaCha20Poly1305')):
         for mode in ('Server', 'Client'):
             for nseg in (1, 2):
-                if tier != 'thorough' and not kind.startswith('Aead2022') and mode == 'Server' and nseg > 1:
-                    continue    # address parsing of attacker-chosen first chunks with a symbolic cut: > 20 min per job, thorough tier only
+                if not kind.startswith('Aead2022') and mode == 'Server' and nseg > 1:
+                    continue    # address parsing of attacker-chosen first chunks with a symbolic cut does not finish within the job cap
                 js.append(('ss::tcp::decode[N=%d,%s,%s,segments=%d]' % (N, kind, mode, nseg), make_ss_tcp_job(N, kind, mode, tier, nseg), 3000))
     for (chunk, padding) in VMESS_COMBOS:
         for side in ('server', 'client'):
